@@ -744,6 +744,7 @@ extern "C" int pmc_main(int argc, char** argv, const pmc_config* cfg, const pmc_
     for (int s = 0; s < nspecs; ++s)
     {
         if (!only.empty() && only != specs[s].name) continue;
+        if (bound_override < 0 && (thorough ? specs[s].thorough_bound : specs[s].quick_bound) < 0) continue;    // not in this tier
         sel.push_back(s);
         double sh = thorough ? specs[s].thorough_share : specs[s].quick_share;
         share_sum += sh > 0 ? sh : 1.0;
